@@ -175,6 +175,20 @@ def pick_op(rng, entry, ctx):
         if len(ids) > 14:
             return None
         args = [[{rng.choice(ids): rng.choice([-2, -1, 1, 2]) for _ in range(rng.randint(0, 2))} for _ in range(rng.randint(1, 2))], rng.random() < 0.4]
+    elif op == "select_builtin_solver":
+        ids = [i for i in graph if i != top]
+        if len(ids) > 14:
+            return None
+        prev = entry.setdefault("batches", [])
+        if prev and rng.random() < 0.5:
+            batch = list(rng.choice(prev))
+            rng.shuffle(batch)                                  # the same requests as an earlier call, in another order
+            if rng.random() < 0.3:
+                batch = [{k_: -v_ if rng.random() < 0.5 else v_ + 1 for k_, v_ in p_.items()} for p_ in batch]      # ... or the same ids with other values
+        else:
+            batch = [{rng.choice(ids): rng.choice([-2, -1, 1, 2]) for _ in range(rng.randint(1, 2))} for _ in range(rng.randint(2, 3))]
+            prev.append(batch)
+        args = [batch, rng.random() < 0.4]
     elif op == "select_failing_solver":
         args = [rng.choice(["raise", "none"])]
     elif op == "add":
